@@ -102,13 +102,18 @@ def solve_cases():
             bad.append(dict(case, problem=f"temporary files remain: {left}"))
         # the existing file is the frame-less output of a run that stopped while thermalising: it is the user's file all the same
         def eps_stop(r, *, t):
-            raise RuntimeError("stopped while thermalising")
+            if t > 0.05:
+                raise RuntimeError("stopped while thermalising")
+            return 1.0
         p5 = os.path.join(td, "sweep.h5")
         try:
             tdgl.solve(dev, tdgl.SolverOptions(solve_time=0.2, skip_time=0.2, output_file=p5, save_every=10, adaptive=False, dt_init=1e-2), applied_vector_potential=0.1, disorder_epsilon=eps_stop)
         except RuntimeError:
             pass
-        if os.path.exists(p5):
+        n += 1
+        if not os.path.exists(p5):
+            bad.append(dict(problem="harness: the stopped run left no output file (scenario not reached)"))
+        else:
             d5 = hashlib.sha256(open(p5, "rb").read()).hexdigest()
             third = tdgl.solve(dev, tdgl.SolverOptions(solve_time=0.1, output_file=p5, save_every=10, adaptive=False, dt_init=1e-2), applied_vector_potential=0.1)
             n += 1
